@@ -2,7 +2,7 @@
    (bool, option, unit, list, prod, sumbool, sumor); N, Z, positive, nat stay inductive. *)
 From Coq Require Import Extraction ExtrOcamlBasic.
 From FV Require Import Model.Base Model.Sink Model.Crc Model.Codes Model.Rice Model.Predict
-  Model.Component Model.Encoder Model.Flac Model.FailSink Model.Source Proofs.OpsLen.
+  Model.Component Model.Encoder Model.Flac Model.FailSink Model.Source Model.Config Proofs.OpsLen.
 Extraction Language OCaml.
 Set Extraction KeepSingleton.
 Separate Extraction
@@ -15,6 +15,7 @@ Separate Extraction
   OpsLen.ops_len Component.residual_count_bits Component.residual_ops Component.header_ops Component.header_count_bits Component.pack
   Source.deinterleave Source.le_bytes_to_i32s Source.i32s_to_le_bytes Source.le_bytes_of Source.fb_new Source.ctx_new
   Source.fill_le_bytes Source.fill_interleaved Source.ctx_fill_le_bytes Source.ctx_fill_interleaved Source.observable
+  Config.verify Config.to_doc Config.from_doc Config.default_config Generated.c_FEATURE_EXPERIMENTAL
   FailSink.expand FailSink.write_failing Component.stream_ops
   Component.stream_bytes Component.frame_bytes Component.stream_count_bits Component.frame_count_bits
   Component.subframe_count_bits Component.subframe_ops Component.precompute
